@@ -137,8 +137,21 @@ fn cli(binary: &str, cases_path: &str, out_path: &str) {
     let mut out = BufWriter::new(File::create(out_path).expect("out"));
     for case in read_cases(cases_path) {
         let text = case["text"].as_str().unwrap().to_string();
-        let o = std::process::Command::new("timeout").arg("20").arg(binary).arg(&text).output().expect("run pushr");
-        let stdout = String::from_utf8_lossy(&o.stdout).to_string();
+        // the front end has no step limit of its own: a diverging program is cut after 3 s and only the
+        // first MAX_STEPS steps of either side are compared
+        const MAX_STEPS: usize = 2000;
+        let mut child = std::process::Command::new("timeout").arg("3").arg(binary).arg(&text)
+            .stdout(std::process::Stdio::piped()).spawn().expect("run pushr");
+        let mut stdout = String::new();
+        {
+            use std::io::Read;
+            let mut limited = child.stdout.take().unwrap().take(8 * 1024 * 1024);
+            let mut buf = Vec::new();
+            let _ = limited.read_to_end(&mut buf);
+            stdout.push_str(&String::from_utf8_lossy(&buf));
+        }
+        let _ = child.kill();
+        let status = child.wait().expect("wait pushr");
         // the front end prints EXEC / CODE / INT before every step
         let mut cli_steps: Vec<Value> = vec![];
         let mut cur = json!({});
@@ -158,6 +171,9 @@ fn cli(binary: &str, cases_path: &str, out_path: &str) {
                 cur["int"] = json!("");
                 cli_steps.push(cur.clone());
             }
+            if cli_steps.len() >= MAX_STEPS {
+                break;
+            }
         }
         // the same through the library
         let mut runner = Runner::new();
@@ -167,14 +183,17 @@ fn cli(binary: &str, cases_path: &str, out_path: &str) {
         st.name_bindings.insert("BIN".to_string(), Item::id(binary.to_string()));
         let cache = runner.iset.cache();
         let mut lib_steps: Vec<Value> = vec![];
-        for _ in 0..100000 {
+        let mut lib_done = false;
+        for _ in 0..MAX_STEPS {
             lib_steps.push(snapshot(&st));
             if PushInterpreter::step(&mut st, &mut runner.iset, &cache) {
+                lib_done = true;
                 break;
             }
         }
         writeln!(out, "{}", json!({"id": case["id"], "i": 0, "act": {"a": "cli", "text": text}, "pre": {"none": 0},
-            "cli": cli_steps, "lib": lib_steps, "exit_ok": o.status.success(), "done": stdout.trim_end().ends_with("Done."),
+            "cli": cli_steps, "lib": lib_steps, "exit_ok": status.success(), "done": stdout.trim_end().ends_with("Done."),
+            "lib_done": lib_done,
             "post": {"none": 0}})).unwrap();
     }
 }
